@@ -77,6 +77,14 @@ def _membership_atoms(v: FuncView, table: str):
                     c = [t for t in v.tables_of(r) if t[1] == table and not t[2]]
                     if c:
                         out.append(_Mem(n, a, l, isinstance(op, ast.In), test))
+                elif isinstance(op, (ast.Is, ast.IsNot)) and isinstance(l, ast.NamedExpr) and isinstance(r, (ast.Constant, ast.Name)) and isinstance(l.value, ast.Call) and isinstance(l.value.func, ast.Attribute) and l.value.func.attr == "get" and l.value.args:
+                    # `(x := T.get(k, D)) is not D`: the sentinel lookup and its test in one expression
+                    call = l.value
+                    dflt = norm(call.args[1]) if len(call.args) > 1 else "None"
+                    if norm(r) == dflt:
+                        c = [t for t in v.tables_of(getattr(call.func.value, "_orig", call.func.value)) if t[1] == table and not t[2]]
+                        if c:
+                            out.append(_Mem(n, a, call.args[0], isinstance(op, ast.IsNot), test))
                 elif isinstance(op, (ast.Is, ast.IsNot)) and isinstance(getattr(l, "_orig", l), ast.Name) and isinstance(r, (ast.Constant, ast.Name)):
                     # x = T.get(k[, D]) ... if x is D:
                     lk = _get_lookup(v, getattr(l, "_orig", l), v.cfg.by_ast[id(n.test)])
@@ -113,7 +121,11 @@ def _fresh_guard(v: FuncView, table: str, key, sid: int):
 def _absent(res: Result, v: FuncView, rule, stmt, detail, why, where):
     """An operation that must exist was not found: definite only when the function's effects are fully attributed."""
     _, opaque = v.effects()
-    if opaque:
+    # local closures / lambdas: their bodies are separate functions - what they do on behalf of this one is not attributed to it
+    nested = any(isinstance(n, (ast.FunctionDef, ast.AsyncFunctionDef, ast.Lambda)) and n is not v.fi.node for n in ast.walk(v.fi.node))
+    if nested:
+        res.unknown(rule, v.fi.short, stmt, detail, "not found in the function body; it defines local closures whose effects are not attributed to it", where)
+    elif opaque:
         res.unknown(rule, v.fi.short, stmt, detail, "not found, but the function mutates containers the analysis cannot attribute to a table", where)
     else:
         res.violation(rule, v.fi.short, stmt, detail, why, where)
@@ -481,6 +493,9 @@ def check_record_creation_guarded(ctx, res: Result, cls: str, skip=("add_edge", 
                     else:
                         res.unknown("P-FRESH", fi.short, norm(st.node), "_edge_list", "the record is created by a private helper for a key it is handed; the freshness test of its callers was not established", _where(v, st.node))
                     continue
+                # (a may-store through a variable that ranges over several tables, a key that is not a plain parameter ...)
+                res.unknown("P-FRESH", fi.short, norm(st.node), "_edge_list", "the record is created by a private helper; the freshness test of its callers was not established", _where(v, st.node))
+                continue
             res.check(ok, "P-FRESH", fi.short, norm(st.node), "_edge_list", "an edge record is (re-)keyed without a dominating `key not in _edge_list` test: an existing record under that key is overwritten instead of merged", _where(v, st.node))
 
 
